@@ -185,7 +185,9 @@ def run_case(case):
         rows.append(row)
     lt = rng.choice(['\r\n', '\n'])
     delim = rng.choice([',', ',', ';', '\t', '|'])
-    path = 'in_%d.csv' % case['idx']
+    # (the case of a file extension means nothing)
+    path = 'in_%d.%s' % (case['idx'], boot.rng(case['seed'], 'C13', 'ext', fam, case['idx']).choice(['csv', 'csv', 'CSV', 'Csv']))
+    cov['options']['extension/' + path.rsplit('.', 1)[1]] = 1
     t_header, t_rows = write_csv(path, header, rows, lt, delim)
     assert t_header == header and t_rows == rows
     strip = rng.random() < 0.5
@@ -464,7 +466,7 @@ def run_package(case, rng, d, counters, cov, viol):
     k = len(names)
     selector = rng.choice([None, names[0], 'a.*', 'a|ab', [names[-1]], list(names), 0, -1, k - 1, [], 'zzz',
                            [names[0], 'nope']])
-    kind = rng.choice(['package', 'tuple', 'zip'])
+    kind = rng.choice(['package', 'tuple', 'zip', 'tuple_streaming'])
     strat = rng.choice([None, None, 'strings+strings', 'full+strings', 'strings+nothing'])
     skw = {}
     if strat:
@@ -479,6 +481,32 @@ def run_package(case, rng, d, counters, cov, viol):
         desc = {'resources': [{'name': n, 'path': n + '.csv', 'schema': {'fields': copy.deepcopy(fields)}}
                               for n in names]}
         step = d.load((desc, [iter(copy.deepcopy(tables[n])) for n in names]), resources=copy.deepcopy(selector), **skw)
+    elif kind == 'tuple_streaming':
+        # the resources component is ONE sequential stream (as a datastream's res_iter over a stream file): the next
+        # resource exists only once the previous one was read; asking for it earlier skips what was not read yet
+        desc = {'resources': [{'name': n, 'path': n + '.csv', 'schema': {'fields': copy.deepcopy(fields)}}
+                              for n in names]}
+        SEP = object()
+        flat = iter([x for n in names for x in (copy.deepcopy(tables[n]) + [SEP])])
+
+        def one_resource():
+            for x in flat:
+                if x is SEP:
+                    return
+                yield x
+
+        def resources_stream():
+            cur = None
+            for _ in names:
+                if cur is not None:
+                    for _skipped in cur:
+                        pass
+                cur = one_resource()
+                yield cur
+        step = d.load((desc, resources_stream()), resources=copy.deepcopy(selector), **skw)
+        kind = 'tuple'
+        cfg['resources_component'] = 'one sequential stream'
+        cov['options']['package/tuple/resources_as_one_sequential_stream'] = 1
     elif kind == 'package':
         with boot.quiet():
             d.Flow(*srcs, d.dump_to_path('pk')).process()
